@@ -5,6 +5,7 @@
 #include "netsim.hpp"
 #include "sigmodel.hpp"
 #include "seeds.hpp"
+#include "pki.hpp"
 extern "C" {
 #include <ksi/policy.h>
 #include <ksi/hashchain.h>
@@ -15,19 +16,20 @@ extern "C" {
 #include <ksi/net_ha.h>
 #include <ksi/hmac.h>
 #include <ksi/tlv_element.h>
+#include <ksi/pkitruststore.h>
 }
 using namespace vf; using namespace ref;
 
 extern "C" const char *harness_id() { return "C19"; }
 size_t harness_max_len() { return 16; }
 
-struct Result { int code = 0; std::string out; bool corrupt = false; std::string note; bool operator==(const Result &o) const { return code == o.code && out == o.out; } };
+struct Result { int code = 0; std::string out; bool corrupt = false; bool inconclusive = false; /* a verification verdict NA: the API's way of reporting that a resource could not be obtained */ std::string note; bool operator==(const Result &o) const { return code == o.code && out == o.out; } };
 struct St { KSI_Signature *sig = nullptr; KSI_Signature *sig2 = nullptr; KSI_PublicationsFile *pf = nullptr; };
 struct Op { const char *name; std::function<bool(KSI_CTX *, St &)> setup; std::function<Result(KSI_CTX *, St &)> body; };
 static std::vector<Op> g_ops; static std::vector<Result> g_ref; static std::vector<uint64_t> g_allocs; static std::vector<bool> g_usable;
 
 // ---- fixed inputs ------------------------------------------------------------------------------------------------------
-static Bytes g_sigA, g_sigB, g_sigRfc, g_aggrPdu, g_extPdu, g_pubFile; static Sig g_modelB; static Verdict g_vB; static std::string g_pubString;
+static Bytes g_sigA, g_sigB, g_sigRfc, g_aggrPdu, g_extPdu, g_pubFile, g_signedPubFile, g_userPubFile; static Sig g_modelA; static Sig g_modelB; static Verdict g_vB; static std::string g_pubString;
 static const std::string kLogin = "anon", kKey = "anon"; static Bytes keyB() { return Bytes(kKey.begin(), kKey.end()); }
 static Sig fixedSig(uint8_t seed, int chains, int cal, int pub, int auth, int rfc, uint64_t salt) {
     uint8_t st = seed; Chooser ch{[&](uint32_t n) { st = (uint8_t)(st * 37 + 11); return n ? st % n : 0u; }, [&]() { st = (uint8_t)(st * 37 + 11); return st; }};
@@ -146,6 +148,43 @@ static void buildCatalogue() {
         if (r.code == KSI_OK) { if (firstErr) r.code = firstErr; else if (got < added) r.code = KSI_NETWORK_RECIEVE_TIMEOUT; } std::sort(outs.begin(), outs.end()); if (r.code == KSI_OK) for (auto &o : outs) r.out += o + ","; KSI_AsyncService_free(as); return r; };
     g_ops.push_back({"async-sign", none, [asyncBody](KSI_CTX *ctx, St &) { return asyncBody(ctx, false); }});
     g_ops.push_back({"ha-sign", none, [asyncBody](KSI_CTX *ctx, St &) { return asyncBody(ctx, true); }});
+    // ---- appended later: never reorder (replay files of the exhaustive tier carry the operation index) ----------------------------
+    auto verdictOf = [](int code, KSI_PolicyVerificationResult *res) { Result r; r.code = code; if (code == KSI_OK && res) { r.out = num(res->finalResult.resultCode) + "/" + num(res->finalResult.errorCode); r.inconclusive = res->finalResult.resultCode == KSI_VER_RES_NA; } return r; };
+    g_ops.push_back({"verify-with-fallback-policy", withSigA, [verdictOf](KSI_CTX *ctx, St &st) { Result r; KSI_Policy *p1 = nullptr, *p2 = nullptr; r.code = KSI_Policy_clone(ctx, KSI_VERIFICATION_POLICY_KEY_BASED, &p1); if (r.code == KSI_OK) r.code = KSI_Policy_clone(ctx, KSI_VERIFICATION_POLICY_INTERNAL, &p2); if (r.code == KSI_OK) r.code = KSI_Policy_setFallback(ctx, p1, p2);
+        if (r.code == KSI_OK) { KSI_VerificationContext vc; KSI_VerificationContext_init(&vc, ctx); vc.signature = st.sig; KSI_PolicyVerificationResult *res = nullptr; int c = KSI_SignatureVerifier_verify(p1, &vc, &res); r = verdictOf(c, res); KSI_PolicyVerificationResult_free(res); vc.signature = nullptr; KSI_VerificationContext_clean(&vc); }
+        KSI_Policy_free(p1); KSI_Policy_free(p2); return r; }});
+    g_ops.push_back({"verify-calendar-based", withSigB, [verdictOf](KSI_CTX *ctx, St &st) { resetSim(); attachExtender(g_srv); KSI_CTX_setExtender(ctx, "ksi+tcp://ext.example.test:4444", kLogin.c_str(), kKey.c_str());
+        KSI_VerificationContext vc; KSI_VerificationContext_init(&vc, ctx); vc.signature = st.sig; KSI_PolicyVerificationResult *res = nullptr; int c = KSI_SignatureVerifier_verify(KSI_VERIFICATION_POLICY_CALENDAR_BASED, &vc, &res); Result r = verdictOf(c, res); KSI_PolicyVerificationResult_free(res); vc.signature = nullptr; KSI_VerificationContext_clean(&vc); return r; }});
+    g_ops.push_back({"verify-publications-file-based", [](KSI_CTX *ctx, St &st) { HeapBuf fb(g_userPubFile); return parseInto(ctx, g_sigA, &st.sig) && KSI_PublicationsFile_parse(ctx, fb.p, fb.n, &st.pf) == KSI_OK; }, [verdictOf](KSI_CTX *ctx, St &st) {
+        KSI_VerificationContext vc; KSI_VerificationContext_init(&vc, ctx); vc.signature = st.sig; vc.userPublicationsFile = st.pf; KSI_PolicyVerificationResult *res = nullptr; int c = KSI_SignatureVerifier_verify(KSI_VERIFICATION_POLICY_PUBLICATIONS_FILE_BASED, &vc, &res); Result r = verdictOf(c, res);
+        KSI_PolicyVerificationResult_free(res); vc.signature = nullptr; vc.userPublicationsFile = nullptr; KSI_VerificationContext_clean(&vc); return r; }});
+    g_ops.push_back({"verify-general-with-extension", [](KSI_CTX *ctx, St &st) { HeapBuf fb(g_userPubFile); return parseInto(ctx, g_sigB, &st.sig) && KSI_PublicationsFile_parse(ctx, fb.p, fb.n, &st.pf) == KSI_OK; }, [verdictOf](KSI_CTX *ctx, St &st) { resetSim(); attachExtender(g_srv); KSI_CTX_setExtender(ctx, "ksi+http://ext.example.test/gt-extendingservice", kLogin.c_str(), kKey.c_str());
+        KSI_VerificationContext vc; KSI_VerificationContext_init(&vc, ctx); vc.signature = st.sig; vc.userPublicationsFile = st.pf; vc.extendingAllowed = 1; KSI_PolicyVerificationResult *res = nullptr; int c = KSI_SignatureVerifier_verify(KSI_VERIFICATION_POLICY_GENERAL, &vc, &res); Result r = verdictOf(c, res);
+        KSI_PolicyVerificationResult_free(res); vc.signature = nullptr; vc.userPublicationsFile = nullptr; KSI_VerificationContext_clean(&vc); return r; }});
+    g_ops.push_back({"publications-file-pki-verify", none, [](KSI_CTX *ctx, St &) { Result r; TestPki &pki = TestPki::get(); KSI_PKITruststore *ts = nullptr; r.code = KSI_PKITruststore_new(ctx, 0, &ts); if (r.code == KSI_OK) { r.code = KSI_PKITruststore_addLookupFile(ts, pki.fileA.c_str()); if (r.code == KSI_OK) { r.code = KSI_CTX_setPKITruststore(ctx, ts); if (r.code == KSI_OK) ts = nullptr; } } KSI_PKITruststore_free(ts);
+        KSI_CertConstraint cc[] = {{(char *)"1.2.840.113549.1.9.1", (char *)"publications@verif.test"}, {nullptr, nullptr}}; if (r.code == KSI_OK) r.code = KSI_CTX_setDefaultPubFileCertConstraints(ctx, cc);
+        KSI_PublicationsFile *pf = nullptr; HeapBuf in(g_signedPubFile); if (r.code == KSI_OK) r.code = KSI_PublicationsFile_parse(ctx, in.p, in.n, &pf); if (r.code == KSI_OK) r.code = KSI_PublicationsFile_verify(pf, ctx);
+        if (r.code == KSI_OK) { KSI_OctetString *id = nullptr; KSI_PKICertificate *cert = nullptr; unsigned char cid[] = {1, 2, 3, 4}; r.code = KSI_OctetString_new(ctx, cid, 4, &id); if (r.code == KSI_OK) r.code = KSI_PublicationsFile_getPKICertificateById(pf, id, &cert); if (r.code == KSI_OK) r.out = cert ? "cert" : "none"; KSI_OctetString_free(id); }
+        KSI_PublicationsFile_free(pf); return r; }});
+    g_ops.push_back({"publications-file-download", none, [](KSI_CTX *ctx, St &) { Result r; resetSim(); TestPki &pki = TestPki::get(); sim::http().onRequest = [](const sim::HttpRequest &) { sim::HttpReply rp; rp.body = g_signedPubFile; return rp; };
+        KSI_PKITruststore *ts = nullptr; r.code = KSI_PKITruststore_new(ctx, 0, &ts); if (r.code == KSI_OK) { r.code = KSI_PKITruststore_addLookupFile(ts, pki.fileA.c_str()); if (r.code == KSI_OK) { r.code = KSI_CTX_setPKITruststore(ctx, ts); if (r.code == KSI_OK) ts = nullptr; } } KSI_PKITruststore_free(ts);
+        KSI_CertConstraint cc[] = {{(char *)"1.2.840.113549.1.9.1", (char *)"publications@verif.test"}, {nullptr, nullptr}}; if (r.code == KSI_OK) r.code = KSI_CTX_setDefaultPubFileCertConstraints(ctx, cc); if (r.code == KSI_OK) r.code = KSI_CTX_setPublicationUrl(ctx, "http://pub.example.test/publications.bin");
+        KSI_PublicationsFile *pf = nullptr; if (r.code == KSI_OK) r.code = KSI_receivePublicationsFile(ctx, &pf); if (r.code == KSI_OK) r.code = KSI_verifyPublicationsFile(ctx, pf); if (r.code == KSI_OK) { size_t n = 0; KSI_PublicationsFile_getSignedDataLength(pf, &n); r.out = num((long long)n); } KSI_PublicationsFile_free(pf); return r; }});
+    g_ops.push_back({"async-extend", withSigB, [](KSI_CTX *ctx, St &st) { Result r; resetSim(); attachExtender(g_srv); KSI_AsyncService *as = nullptr; r.code = KSI_ExtendingAsyncService_new(ctx, &as); if (r.code == KSI_OK) r.code = KSI_AsyncService_setEndpoint(as, "ksi+tcp://ext.example.test:4444", kLogin.c_str(), kKey.c_str());
+        KSI_AsyncHandle *h = nullptr; if (r.code == KSI_OK) r.code = KSI_AsyncExtendingHandle_new(ctx, st.sig, nullptr, &h); if (r.code == KSI_OK) { r.code = KSI_AsyncService_addRequest(as, h); if (r.code == KSI_OK) h = nullptr; } KSI_AsyncHandle_free(h);
+        bool done = false; for (int round = 0; round < 60 && r.code == KSI_OK && !done; round++) { KSI_AsyncHandle *out = nullptr; size_t w = 0; int e = KSI_AsyncService_run(as, &out, &w); sim::net().now += 1; if (e != KSI_OK) { r.code = e; break; } if (!out) continue; int stt = 0; KSI_AsyncHandle_getState(out, &stt);
+            if (stt == KSI_ASYNC_STATE_RESPONSE_RECEIVED) { KSI_Signature *s = nullptr; r.code = KSI_AsyncHandle_getSignature(out, &s); if (r.code == KSI_OK) r.out = sigHex(s).substr(0, 200); KSI_Signature_free(s); done = true; } else if (stt == KSI_ASYNC_STATE_ERROR) { int e3 = 0; KSI_AsyncHandle_getError(out, &e3); r.code = e3 ? e3 : KSI_UNKNOWN_ERROR; done = true; } KSI_AsyncHandle_free(out); }
+        if (r.code == KSI_OK && !done) r.code = KSI_NETWORK_RECIEVE_TIMEOUT; KSI_AsyncService_free(as); return r; }});
+    g_ops.push_back({"aggregator-config", none, [](KSI_CTX *ctx, St &) { Result r; resetSim(); g_srv = Server(); g_srv.respond = [](const Bytes &req, int) -> Bytes { ReqInfo ri = parseRequest(req); if (!ri.ok || !ri.isAggr) return Bytes(); Header h; h.login = "srv"; return sealV2(0x221, h, {aggrConfPayload(true, 17, true, 1, true, 400, true, 12, {"ksi+tcp://p1.example.test:1", "ksi+tcp://p2.example.test:2"})}, keyB(), 1); }; g_srv.attach();
+        KSI_CTX_setAggregator(ctx, "ksi+tcp://aggr.example.test:3333", kLogin.c_str(), kKey.c_str()); KSI_Config *cfg = nullptr; r.code = KSI_receiveAggregatorConfig(ctx, &cfg); if (r.code == KSI_OK) { KSI_Integer *ml = nullptr; KSI_LIST(KSI_Utf8String) *pu = nullptr; KSI_Config_getMaxLevel(cfg, &ml); KSI_Config_getParentUri(cfg, &pu); r.out = num((long long)KSI_Integer_getUInt64(ml)) + "/" + num((long long)KSI_Utf8StringList_length(pu)); } KSI_Config_free(cfg); return r; }});
+    g_ops.push_back({"list-insert-remove-sort", none, [](KSI_CTX *ctx, St &) { Result r; KSI_LIST(KSI_Integer) *l = nullptr; r.code = KSI_IntegerList_new(&l); std::vector<uint64_t> model; int firstErr = 0;
+        if (r.code == KSI_OK) { for (uint64_t i = 0; i < 24; i++) { KSI_Integer *v = nullptr; int e = KSI_Integer_new(ctx, (i * 37) % 50, &v); if (e == KSI_OK) { size_t pos = (size_t)((i * 7) % (model.size() + 1)); e = pos == model.size() ? KSI_IntegerList_append(l, v) : KSI_IntegerList_insertAt(l, pos, v); if (e == KSI_OK) model.insert(model.begin() + pos, (i * 37) % 50); else KSI_Integer_free(v); } if (e != KSI_OK && !firstErr) firstErr = e;
+                if (i % 5 == 4 && !model.empty()) { KSI_Integer *o = nullptr; size_t pos = (size_t)(i % model.size()); int e2 = KSI_IntegerList_remove(l, pos, &o); if (e2 == KSI_OK) { model.erase(model.begin() + pos); KSI_Integer_free(o); } else if (!firstErr) firstErr = e2; } }
+            if (KSI_IntegerList_length(l) != model.size()) { r.corrupt = true; r.note = "list length differs from the model"; }
+            for (size_t i = 0; i < model.size() && !r.corrupt; i++) { KSI_Integer *v = nullptr; if (KSI_IntegerList_elementAt(l, i, &v) != KSI_OK || !v || KSI_Integer_getUInt64(v) != model[i]) { r.corrupt = true; r.note = "list element " + num((long long)i) + " differs from the model"; } }
+            r.code = firstErr; if (!firstErr) for (auto k : model) r.out += num((long long)k) + ","; }
+        KSI_IntegerList_free(l); return r; }});
+    g_ops.push_back({"signature-verify-data-hash", withSigA, [](KSI_CTX *ctx, St &st) { Result r; KSI_DataHash *h = nullptr; Bytes doc = g_modelA.docHash(); r.code = KSI_DataHash_fromImprint(ctx, doc.data(), doc.size(), &h); if (r.code == KSI_OK) r.code = KSI_Signature_verifyWithPolicy(st.sig, h, 0, KSI_VERIFICATION_POLICY_INTERNAL, nullptr); KSI_DataHash_free(h); return r; }});
 }
 
 static Result runClean(size_t oi, uint64_t *allocs) {
@@ -153,10 +192,15 @@ static Result runClean(size_t oi, uint64_t *allocs) {
     return r;
 }
 void harness_init() {
-    Sig a = fixedSig(7, 3, 1, 1, 0, 0, 5); g_sigA = a.enc(); g_modelB = fixedSig(9, 2, 1, 0, 1, 0, 5); g_sigB = g_modelB.enc(); g_vB = evaluate(g_modelB); Sig c = fixedSig(11, 2, 1, 0, 1, 1, 5); g_sigRfc = c.enc();
+    Sig a = fixedSig(7, 3, 1, 1, 0, 0, 5); g_sigA = a.enc(); g_modelA = a; g_modelB = fixedSig(9, 2, 1, 0, 1, 0, 5); g_sigB = g_modelB.enc(); g_vB = evaluate(g_modelB); Sig c = fixedSig(11, 2, 1, 0, 1, 1, 5); g_sigRfc = c.enc();
     { Header h; h.login = "srv"; g_aggrPdu = sealV2(0x221, h, {aggrRespPayload(2, 77, true, 0, "", &g_modelB, 0)}, keyB(), 1); g_extPdu = sealV2(0x321, h, {extRespPayload(2, 78, true, 0, "", &g_modelB.cal, true, g_modelB.cal.pubTime + 5)}, keyB(), 1); }
     for (size_t i : seedsOf(SK_PUBFILE)) { const Seed &s = seeds()[i]; if (s.path.find("publications.tlv") != std::string::npos && s.path.find("fake") == std::string::npos) { g_pubFile = s.data; break; } }
     { Bytes d; for (int i = 7; i >= 0; i--) d.push_back((uint8_t)(a.cal.pubTime >> (8 * i))); Verdict va = evaluate(a); d.insert(d.end(), va.calRoot.begin(), va.calRoot.end()); uint32_t crc = crc32(d); for (int i = 3; i >= 0; i--) d.push_back((uint8_t)(crc >> (8 * i))); g_pubString = base32(d); }
+    { TestPki &pki = TestPki::get(); Verdict va = evaluate(a); std::vector<Tlv> recs; Tlv h(0x701); h.add(Tlv::u64(0x01, 2)); h.add(Tlv::u64(0x02, 1400000000)); recs.push_back(h);
+      Tlv cr(0x702); cr.add(Tlv::raw(0x01, Bytes{1, 2, 3, 4})); cr.add(Tlv::raw(0x02, pki.s[0].der)); recs.push_back(cr);
+      PubRecord pa; pa.data.time = a.cal.pubTime; pa.data.hash = va.calRoot; recs.push_back(pa.toTlv(0x703));
+      uint64_t tb = g_modelB.chains[0].aggrTime, pb = tb + 2000; ChainResult crb = calAggregate(coherentCalLinks(tb, pb, 5), g_vB.aggrRoot); PubRecord pbr; pbr.data.time = pb; pbr.data.hash = crb.hash; recs.push_back(pbr.toTlv(0x703));
+      static const char m[] = "KSIPUBLF"; Bytes f(m, m + 8); for (auto &r : recs) r.encode(f); Bytes sg = pki.signDetached(pki.s[0], f, {}); Tlv::raw(0x704, sg).encode(f); g_signedPubFile = f; g_userPubFile = f; }
     buildCatalogue();
     for (size_t i = 0; i < g_ops.size(); i++) { uint64_t n1 = 0, n2 = 0; Result r1 = runClean(i, &n1), r2 = runClean(i, &n2); g_ref.push_back(r1); g_allocs.push_back(n1); g_usable.push_back(r1 == r2 && r1.code == KSI_OK && !r1.corrupt && n1 > 0); }
 }
@@ -172,7 +216,8 @@ static void faultCase(size_t oi, int mode, uint64_t n, uint64_t n2, Case &c) {
         g_alloc.arm(mode == 2 ? 0 : n, mode == 1 ? n + n2 : 0, mode == 2 ? n : 0); Result r1 = op.body(ctx, st); uint64_t fired = g_alloc.fired; g_alloc.disarm();
         c.nontrivial = fired > 0; c.cls(fired ? (r1.code != KSI_OK ? "fault:error-returned" : "fault:completed-anyway") : "fault:not-reached");
         if (r1.corrupt) VF_FAIL(c, "C19:" + on + ":corrupt-state", "after a failed allocation: " + r1.note + " (" + c.desc + ")");
-        else if (r1.code == KSI_OK && !(r1 == want)) VF_FAIL(c, "C19:" + on + ":wrong-result-reported-as-success", std::string(fired ? "with" : "without") + " an injected failure the call returned OK but its result differs from the fault-free one (" + c.desc + ")");
+        else if (r1.code == KSI_OK && fired && r1.inconclusive && !want.inconclusive) c.cls("fault:inconclusive-verdict");
+        else if (r1.code == KSI_OK && !(r1 == want)) VF_FAIL(c, "C19:" + on + ":wrong-result-reported-as-success", std::string(fired ? "with" : "without") + " an injected failure the call returned OK but its result differs from the fault-free one (" + c.desc + "): got '" + r1.out.substr(0, 60) + "' want '" + want.out.substr(0, 60) + "'");
         else if (!fired && r1.code != KSI_OK) VF_FAIL(c, "C19:" + on + ":error-without-fault", "no allocation failed but the call returned " + num(r1.code) + " (" + c.desc + ")");
         if (!c.fail) { Result r2 = op.body(ctx, st); // same context, same objects, no fault
             if (r2.corrupt) VF_FAIL(c, "C19:" + on + ":corrupt-state-afterwards", r2.note + " (" + c.desc + ")");
